@@ -129,6 +129,9 @@ impl FileDesc {
                 object.transfer_length,
                 oti.encoding_symbol_length as u64,
             );
+            // Z (number of source blocks) is at least 1, also for an empty object:
+            // an FTI with Z = 0 is rejected by receivers
+            let nb_blocks = nb_blocks.max(1);
 
             if oti.fec_encoding_id == oti::FECEncodingID::RaptorQ {
                 if oti.scheme_specific.is_none() {
